@@ -115,11 +115,12 @@ PROPS = {
         "assumptions": ["u32/usize modelled as Nat (no operation overflows for label_len <= 2^32-1)"],
     },
     "C01": {
-        "thm_module": ["AkdModel.Thm.C01a", "AkdModel.Thm.C01b"],
+        "thm_module": ["AkdModel.Thm.C01a", "AkdModel.Thm.C01b", "AkdModel.Thm.C01c"],
         "theorems": ["Akd.C01." + t for t in ["insert1_wf", "insert1_leaves", "wf_prefixFree", "wf_unique", "ofLeaves_spec",
                                               "ofLeaves_perm", "rootHash_perm", "rootHash_injective",
                                               "azksNew_repr", "batchInsert_refines", "emptyLabel_len",
-                                              "batchInsert_rootHash", "batchInsert_perm"]],
+                                              "batchInsert_rootHash", "batchInsert_perm",
+                                              "init_refines", "publish_refines", "history_refines", "refines_honest"]],
         "streams": ["l1.dir.c01", "l1.trie"],
         "rule": "random publish histories through the real Directory (batches of 0..12 from a label pool with the empty, "
                 "1-byte, 300-byte and prefix-related labels; empty/short/2 KiB values; 30% re-submissions; duplicate-label "
@@ -261,8 +262,10 @@ PROPS = {
         "assumptions": [],
     },
     "C06": {
-        "thm_module": ["AkdModel.Thm.C05"],
-        "theorems": ["Akd.C05.membership_sound_leaf", "Akd.C05.nonmembership_sound", "Akd.C05.membership_sound"],
+        "thm_module": ["AkdModel.Thm.C06", "AkdModel.Thm.C01c"],
+        "theorems": ["Akd.C06.lookup_sound", "Akd.C06.lookup_unpublished_rejected", "Akd.C06.lookup_version_gt_epoch",
+                     "Akd.C01.refines_honest", "Akd.C01.history_refines",
+                     "Akd.C05.membership_sound_leaf", "Akd.C05.nonmembership_sound"],
         "streams": ["l1.dir.c06"],
         "rule": "histories with a label updated in every epoch; for every label after every second publish the symbolic adversary "
                 "assembles lookup proofs the way a server holding key and tree can: every older version served with all its "
@@ -273,9 +276,10 @@ PROPS = {
         "assumptions": ["VRF contract: a proof identifies the input it was generated for (harness: byte-equal to the honest proof)"],
     },
     "C07": {
-        "thm_module": ["AkdModel.Thm.C05", "AkdModel.Thm.C08"],
-        "theorems": ["Akd.C05.membership_sound_leaf", "Akd.C05.nonmembership_sound", "Akd.C08.succ_mem_future",
-                     "Akd.C08.future_bounds", "Akd.C08.past_lt_start"],
+        "thm_module": ["AkdModel.Thm.C07", "AkdModel.Thm.C01c"],
+        "theorems": ["Akd.C07.history_sound", "Akd.C07.history_sound_tombstone", "Akd.C07.history_unpublished_rejected",
+                     "Akd.C07.late_stale_rejected", "Akd.C01.refines_honest", "Akd.C01.history_refines",
+                     "Akd.C08.succ_mem_future"],
         "streams": ["l1.dir.c07"],
         "rule": "histories; for every label, Complete / MostRecent(2) / MostRecent(n), both verification modes: the honest proof "
                 "edited by the symbolic adversary — newest/oldest entries dropped with marker proofs regenerated, absence of the "
